@@ -25,6 +25,8 @@ CheckAlgebra(e) ==
   ELSE IF e.join # Join(a,b) THEN "join"
   ELSE IF e.join3 # Join(Join(a,b),c) THEN "join-of-three"
   ELSE IF ~IsEmptyE(b) /\ e.expandxy # ExpandXY(a, <<b[1],b[4]>>) THEN "expand-to-include-xy"
+  \* TransformXY maps the two extreme corners and takes their box (the empty envelope stays empty); f(x,y) = (7-y, 2x+1)
+  ELSE IF ~IsEmptyE(b) /\ e.txy # (IF IsEmptyE(a) THEN <<>> ELSE OfPoints({<<7 - a[2], 2*a[1] + 1>>, <<7 - a[4], 2*a[3] + 1>>})) THEN "transform-xy"
   ELSE IF ~IsEmptyE(b) /\ e.contains # ContainsP(a, <<b[1],b[4]>>) THEN "contains"
   ELSE IF e.intersects # Intersects(a,b) \/ e.intersectsrev # Intersects(b,a) THEN "intersects"
   ELSE IF e.covers # Covers(a,b) \/ e.coversrev # Covers(b,a) THEN "covers"
@@ -60,6 +62,7 @@ CheckXY(e) ==
   ELSE IF e.cross # u[1]*v[2] - u[2]*v[1] THEN "xy-cross"
   ELSE IF e.dot # u[1]*v[1] + u[2]*v[2] THEN "xy-dot"
   ELSE IF e.mid2 # <<u[1]+v[1], u[2]+v[2]>> THEN "xy-midpoint"
+  ELSE IF e.ival # <<IF u[1] <= v[1] THEN u[1] ELSE v[1], IF u[1] <= v[1] THEN v[1] ELSE u[1], 1, 0>> THEN "interval"
   ELSE IF e.less # (u[1] < v[1] \/ (u[1] = v[1] /\ u[2] < v[2])) THEN "xy-less"
   ELSE IF e.lessrev # (v[1] < u[1] \/ (u[1] = v[1] /\ v[2] < u[2])) THEN "xy-less"
   \* floor(32 * |u|) is the integer square root of 1024 |u|^2 (|u|^2 <= 4624; one unit of slack for the rounding of sqrt)
